@@ -2,14 +2,14 @@
    (non-replacing modes, no semantic-after on branches, no function entry/exit). *)
 From Coq Require Import List Arith NArith ZArith Bool Lia.
 Import ListNotations.
-From Orca Require Import Flat Lowering Tree WasmP EvalP Sim.
+From Orca Require Import Flat Lowering Tree TreeLower WasmP EvalP Sim.
 
 Section Commute.
 Variable F : nat -> flags.
 
-Notation bef := (bef F). Notation aft := (aft F). Notation be_ := (be_ F).
-Notation bx_ := (bx_ F). Notation sa_ := (sa_ F).
-Notation lower := (lower F).
+Notation bef := (TreeLower.bef F). Notation aft := (TreeLower.aft F). Notation be_ := (TreeLower.be_ F).
+Notation bx_ := (TreeLower.bx_ F). Notation sa_ := (TreeLower.sa_ F).
+Notation lower := (TreeLower.lower F).
 
 (* ---------- flattening ---------- *)
 Fixpoint flatF1 (x : instr) : list (fop * flags) :=
@@ -23,16 +23,6 @@ Fixpoint flatF1 (x : instr) : list (fop * flags) :=
       ++ [(FEnd, F e)]
   end.
 Definition flatF (t : list instr) := flat_map flatF1 t.
-
-Fixpoint flat1 (x : instr) : list fop :=
-  match x with
-  | IPlain _ o => [o]
-  | IBlock _ _ bt b => FBlock bt :: flat_map flat1 b ++ [FEnd]
-  | ILoop _ _ bt b => FLoop bt :: flat_map flat1 b ++ [FEnd]
-  | IIf _ el _ bt t els =>
-      FIf bt :: flat_map flat1 t ++ (match el with Some _ => FElse :: flat_map flat1 els | None => [] end) ++ [FEnd]
-  end.
-Definition flat (t : list instr) := flat_map flat1 t.
 
 Lemma flat_app a b : flat (a ++ b) = flat a ++ flat b.
 Proof. apply flat_map_app. Qed.
